@@ -632,6 +632,73 @@ def tree_jobs():
     return [cases[i::12] for i in range(12)]
 
 
+# ------------------------------------------------------------------ end to end: remote_copy with offsets
+def remote_copy_worker(job):
+    """SFTPClient.remote_copy (the copy-data extension) between two open remote files of more than one server copy
+    block: source offset / length (0 = to the end) / destination offset from a grid around block multiples; the
+    destination, pre-filled, has exactly the copied range at the place asked for and everything else untouched"""
+    from asyncssh.sftp import _COPY_DATA_BLOCK_SIZE as BLK
+    acc = core.Acc()
+    root = os.path.join(SCRATCH, 'rcopy-%d' % os.getpid())
+    for case in job:
+        so, ln, do, size_blocks = case
+        shutil.rmtree(root, ignore_errors=True)
+        os.makedirs(root)
+        n = size_blocks * BLK + 100
+        src = content(n, 3)
+        pre = bytes([0xaa]) * (n + 2 * BLK)
+        with open(os.path.join(root, 'f'), 'wb') as f:
+            f.write(src)
+        with open(os.path.join(root, 'dst'), 'wb') as f:
+            f.write(pre)
+        piece = src[so:] if ln == 0 else src[so:so + ln]
+        want = bytearray(pre)
+        if len(want) < do + len(piece):
+            want.extend(bytes(do + len(piece) - len(want)))
+        want[do:do + len(piece)] = piece
+        loop = P.fresh(0)
+        viol = []
+        try:
+            pair = P.Pair(loop, sopts=dict(sftp_factory=lambda chan: asyncssh.SFTPServer(chan, chroot=root)))
+            pair.handshake()
+
+            async def body():
+                async with pair.c.start_sftp_client() as sftp:
+                    async with sftp.open('f', 'rb') as fs, sftp.open('dst', 'r+b') as fd:
+                        await sftp.remote_copy(fs, fd, so, ln, do)
+            t = loop.create_task(body())
+            loop.flush_all(horizon=2000000)
+            if not t.done():
+                viol.append(('hang', 'remote_copy did not finish'))
+            elif t.exception() is not None:
+                viol.append(('e2e-failed', repr(t.exception())[:200]))
+            else:
+                got = open(os.path.join(root, 'dst'), 'rb').read()
+                if got != bytes(want):
+                    first = next((i for i, (a, b) in enumerate(zip(got, want)) if a != b), min(len(got), len(want)))
+                    viol.append(('corrupt-result', 'remote_copy(src_offset=%d, length=%d, dst_offset=%d) of a %d-byte file: destination has %d bytes, expected %d; first difference at %d'
+                                 % (so, ln, do, n, len(got), len(want), first)))
+            if loop.unretrieved():
+                viol.append(('loop-exception', repr(loop.exc_log[0].get('exception'))[:200]))
+        except Livelock as exc:
+            viol.append(('livelock', str(exc)))
+        finally:
+            P.done(loop)
+        acc.add(core.digest(('rcopy',) + tuple(case)), transitions=1,
+                sample={'remote_copy': {'src_offset': so, 'length': ln, 'dst_offset': do, 'file_blocks': size_blocks}} if case == (BLK, 0, 5, 3) else None)
+        for k, d in viol:
+            acc.violation('sftp:%s:remote-copy' % k, d, {'rcopy': list(case)})
+    shutil.rmtree(root, ignore_errors=True)
+    return acc
+
+
+def remote_copy_jobs():
+    from asyncssh.sftp import _COPY_DATA_BLOCK_SIZE as BLK
+    cases = [(so, ln, do, 3) for so in (0, 7, BLK, BLK + 1) for ln in (0, 100, BLK, BLK + 1, 2 * BLK + 50) for do in (0, 5, BLK, 2 * BLK + 3)]
+    cases += [(0, 0, 0, 1), (10, 0, 0, 1), (0, 0, 10, 1)]
+    return [cases[i::16] for i in range(16)]
+
+
 def main(tier, seed):
     t0 = core.now()
     cfg = dict(op='get', size=17, b=4, r=2, sparse=False)
@@ -649,6 +716,7 @@ def main(tier, seed):
     acc.merge(core.pmap(e2e_worker, core.rotate(e2e_jobs(tier), seed)))
     acc.merge(core.pmap(e2e_versions_worker, e2v_jobs()))
     acc.merge(core.pmap(tree_worker, tree_jobs()))
+    acc.merge(core.pmap(remote_copy_worker, remote_copy_jobs()))
     shutil.rmtree(SCRATCH, ignore_errors=True)
     rule = ('operations get/put/copy (sparse and non-sparse), SFTPClientFile.read(size, offset) and write '
             '(r+b, wb, append) x block size {4,8} x max_requests {1,2,3} x sizes around block and request-window '
@@ -670,6 +738,10 @@ def replay(rep):
     r = rep['replay']
     if 'e2v' in r:
         acc = e2e_versions_worker([tuple(r['e2v'])])
+        print(json.dumps(acc.violations, indent=1, default=repr))
+        return 1 if acc.violations else 0
+    if 'rcopy' in r:
+        acc = remote_copy_worker([tuple(r['rcopy'])])
         print(json.dumps(acc.violations, indent=1, default=repr))
         return 1 if acc.violations else 0
     if 'tree' in r:
